@@ -1,0 +1,280 @@
+//! Verification driver, only compiled with `--cfg parol_verif`.
+//!
+//! When the environment variable `PAROL_LS_VERIF` is set the binary does not start a language
+//! server session but reads one JSON command per line from stdin, executes it against an in-process
+//! `Server` (connected to an in-memory LSP connection) and answers with one JSON line on stdout.
+//! It only calls the crate's existing entry points; every call is wrapped in `catch_unwind`.
+//! Background analyses can be gated so that a harness decides in which order they run.
+
+use std::collections::HashSet;
+use std::io::{BufRead, Write};
+use std::panic::{AssertUnwindSafe, catch_unwind};
+use std::sync::{Arc, Condvar, Mutex};
+
+use lsp_server::{Connection, Message, Notification, RequestId};
+use lsp_types::request::{
+    CodeActionRequest, DocumentSymbolRequest, Formatting, GotoDefinition, HoverRequest,
+    PrepareRenameRequest, Rename, Request as _,
+};
+use serde_json::{Value, json};
+
+use crate::config::ConfigProperties;
+use crate::handler::RequestHandler;
+use crate::parol_ls_grammar::ParolLsGrammar;
+use crate::server::Server;
+
+#[derive(Default)]
+struct Gate {
+    gating: bool,
+    released: HashSet<i32>,
+    spawned: usize,
+    finished: usize,
+}
+
+static GATE: Mutex<Option<Gate>> = Mutex::new(None);
+static GATE_CV: Condvar = Condvar::new();
+
+fn with_gate<T>(f: impl FnOnce(&mut Gate) -> T) -> T {
+    let mut g = GATE.lock().unwrap_or_else(|e| e.into_inner());
+    f(g.get_or_insert_with(Gate::default))
+}
+
+/// Wraps the grammar configuration that `Server::check_grammar` moves into its background analysis
+/// thread. Creating it counts one spawned analysis, the first access from inside the thread blocks
+/// while the analysis of this document version is gated, dropping it counts the analysis as finished.
+pub(crate) struct Gated<T> {
+    inner: T,
+    version: i32,
+    passed: std::sync::atomic::AtomicBool,
+}
+
+impl<T> Gated<T> {
+    pub(crate) fn new(inner: T, version: i32) -> Self {
+        with_gate(|g| g.spawned += 1);
+        Self { inner, version, passed: std::sync::atomic::AtomicBool::new(false) }
+    }
+}
+
+impl<T> std::ops::Deref for Gated<T> {
+    type Target = T;
+    fn deref(&self) -> &T {
+        if !self.passed.swap(true, std::sync::atomic::Ordering::SeqCst) {
+            let mut g = GATE.lock().unwrap_or_else(|e| e.into_inner());
+            loop {
+                let gate = g.get_or_insert_with(Gate::default);
+                if !gate.gating || gate.released.contains(&self.version) {
+                    break;
+                }
+                g = GATE_CV.wait(g).unwrap_or_else(|e| e.into_inner());
+            }
+        }
+        &self.inner
+    }
+}
+
+impl<T> Drop for Gated<T> {
+    fn drop(&mut self) {
+        with_gate(|g| g.finished += 1);
+        GATE_CV.notify_all();
+    }
+}
+
+fn panic_message(e: Box<dyn std::any::Any + Send>) -> String {
+    if let Some(s) = e.downcast_ref::<&str>() {
+        s.to_string()
+    } else if let Some(s) = e.downcast_ref::<String>() {
+        s.clone()
+    } else {
+        "<non-string panic payload>".to_string()
+    }
+}
+
+thread_local! {
+    static LAST_PANIC_LOCATION: std::cell::RefCell<String> = const { std::cell::RefCell::new(String::new()) };
+}
+
+fn guarded(f: impl FnOnce() -> Value) -> Value {
+    match catch_unwind(AssertUnwindSafe(f)) {
+        Ok(v) => v,
+        Err(e) => {
+            let loc = LAST_PANIC_LOCATION.with(|l| l.borrow().clone());
+            json!({"panic": format!("{} @ {}", panic_message(e), loc)})
+        }
+    }
+}
+
+fn request<R>(server: &mut Server, params: Value) -> Value
+where
+    R: RequestHandler,
+    R::Params: serde::de::DeserializeOwned,
+{
+    let params: R::Params = match serde_json::from_value(params) {
+        Ok(p) => p,
+        Err(e) => return json!({"bad_params": e.to_string()}),
+    };
+    let resp = R::handle(server, RequestId::from(1), params);
+    serde_json::to_value(&resp).unwrap_or(Value::Null)
+}
+
+pub(crate) fn run() -> Result<(), Box<dyn std::error::Error>> {
+    std::panic::set_hook(Box::new(|info| {
+        let loc = info.location().map(|l| format!("{}:{}", l.file(), l.line())).unwrap_or_default();
+        LAST_PANIC_LOCATION.with(|l| *l.borrow_mut() = loc);
+    }));
+    let (server_side, client_side) = Connection::memory();
+    let connection = Arc::new(server_side);
+    let mut server = Server::new(3);
+    let stdin = std::io::stdin();
+    let stdout = std::io::stdout();
+    for line in stdin.lock().lines() {
+        let line = line?;
+        if line.trim().is_empty() {
+            continue;
+        }
+        let cmd: Value = match serde_json::from_str(&line) {
+            Ok(v) => v,
+            Err(e) => {
+                writeln!(stdout.lock(), "{}", json!({"bad_command": e.to_string()}))?;
+                continue;
+            }
+        };
+        let name = cmd["cmd"].as_str().unwrap_or("").to_string();
+        let answer = match name.as_str() {
+            "new_server" => {
+                server = Server::new(cmd["max_k"].as_u64().unwrap_or(3) as usize);
+                with_gate(|g| *g = Gate::default());
+                for _ in client_side.receiver.try_iter() {}
+                json!({"ok": true})
+            }
+            "configure" => {
+                let props: std::collections::HashMap<String, Value> =
+                    serde_json::from_value(cmd["props"].clone()).unwrap_or_default();
+                match server.update_configuration(&ConfigProperties(props)) {
+                    Ok(()) => json!({"ok": true}),
+                    Err(e) => json!({"error": e.to_string()}),
+                }
+            }
+            "open" | "change" => {
+                let uri = cmd["uri"].as_str().unwrap_or("file:///verif.par");
+                let version = cmd["version"].as_i64().unwrap_or(1);
+                let text = cmd["text"].as_str().unwrap_or("");
+                let (method, params) = if name == "open" {
+                    (
+                        "textDocument/didOpen",
+                        json!({"textDocument": {"uri": uri, "languageId": "parol", "version": version, "text": text}}),
+                    )
+                } else {
+                    (
+                        "textDocument/didChange",
+                        json!({"textDocument": {"uri": uri, "version": version}, "contentChanges": [{"text": text}]}),
+                    )
+                };
+                let n = Notification { method: method.to_string(), params };
+                let conn = connection.clone();
+                guarded(|| {
+                    let r = if name == "open" {
+                        server.handle_open_document(conn, n)
+                    } else {
+                        server.handle_change_document(conn, n)
+                    };
+                    match r {
+                        Ok(()) => json!({"ok": true}),
+                        Err(e) => json!({"error": e.to_string()}),
+                    }
+                })
+            }
+            "request" => {
+                let method = cmd["method"].as_str().unwrap_or("").to_string();
+                let params = cmd["params"].clone();
+                guarded(|| match method.as_str() {
+                    GotoDefinition::METHOD => request::<GotoDefinition>(&mut server, params),
+                    HoverRequest::METHOD => request::<HoverRequest>(&mut server, params),
+                    DocumentSymbolRequest::METHOD => request::<DocumentSymbolRequest>(&mut server, params),
+                    PrepareRenameRequest::METHOD => request::<PrepareRenameRequest>(&mut server, params),
+                    Rename::METHOD => request::<Rename>(&mut server, params),
+                    Formatting::METHOD => request::<Formatting>(&mut server, params),
+                    CodeActionRequest::METHOD => request::<CodeActionRequest>(&mut server, params),
+                    _ => json!({"unknown_method": method}),
+                })
+            }
+            "diagnostics" => {
+                let mut v = vec![];
+                for m in client_side.receiver.try_iter() {
+                    if let Message::Notification(n) = m {
+                        v.push(json!({"method": n.method, "params": n.params}));
+                    }
+                }
+                json!({"notifications": v})
+            }
+            "gating" => {
+                let on = cmd["on"].as_bool().unwrap_or(true);
+                with_gate(|g| g.gating = on);
+                GATE_CV.notify_all();
+                json!({"ok": true})
+            }
+            "release" => {
+                let version = cmd["version"].as_i64().unwrap_or(0) as i32;
+                // wait until the released analysis (if one is pending) has finished, so that the
+                // harness fully owns the order of completion
+                let before = with_gate(|g| {
+                    g.released.insert(version);
+                    g.finished
+                });
+                GATE_CV.notify_all();
+                let wait_for = cmd["wait_finished"].as_u64().map(|n| n as usize);
+                if let Some(n) = wait_for {
+                    let mut g = GATE.lock().unwrap_or_else(|e| e.into_inner());
+                    let deadline = std::time::Instant::now() + std::time::Duration::from_secs(60);
+                    while g.get_or_insert_with(Gate::default).finished < before + n && std::time::Instant::now() < deadline {
+                        let (ng, _) = GATE_CV.wait_timeout(g, std::time::Duration::from_millis(200)).unwrap_or_else(|e| e.into_inner());
+                        g = ng;
+                    }
+                }
+                json!({"ok": true})
+            }
+            "wait_idle" => {
+                let mut g = GATE.lock().unwrap_or_else(|e| e.into_inner());
+                let deadline = std::time::Instant::now() + std::time::Duration::from_secs(120);
+                loop {
+                    let gate = g.get_or_insert_with(Gate::default);
+                    if gate.finished >= gate.spawned || std::time::Instant::now() > deadline {
+                        break;
+                    }
+                    let (ng, _) = GATE_CV.wait_timeout(g, std::time::Duration::from_millis(200)).unwrap_or_else(|e| e.into_inner());
+                    g = ng;
+                }
+                let gate = g.get_or_insert_with(Gate::default);
+                json!({"spawned": gate.spawned, "finished": gate.finished})
+            }
+            "parse" => {
+                let text = cmd["text"].as_str().unwrap_or("").to_string();
+                guarded(|| {
+                    let mut grammar = ParolLsGrammar::default();
+                    match crate::parol_ls_parser::parse(&text, "verif.par", &mut grammar) {
+                        Ok(_) => json!({"ok": true}),
+                        Err(e) => {
+                            let kind = match &e {
+                                parol_runtime::ParolError::ParserError(_) => "parser",
+                                parol_runtime::ParolError::LexerError(_) => "lexer",
+                                parol_runtime::ParolError::UserError(_) => "user",
+                            };
+                            json!({"ok": false, "kind": kind, "message": e.to_string()})
+                        }
+                    }
+                })
+            }
+            "pos_to_offset" => {
+                let text = cmd["text"].as_str().unwrap_or("").to_string();
+                let line = cmd["line"].as_u64().unwrap_or(0) as u32;
+                let character = cmd["character"].as_u64().unwrap_or(0) as u32;
+                guarded(|| json!({"offset": crate::utils::pos_to_offset(&text, lsp_types::Position { line, character })}))
+            }
+            "quit" => break,
+            _ => json!({"unknown_command": name}),
+        };
+        let mut out = stdout.lock();
+        writeln!(out, "{answer}")?;
+        out.flush()?;
+    }
+    Ok(())
+}
